@@ -66,8 +66,8 @@ func Sanitize(c *core.Ctx, rule string, p *packages.Package) {
 				if !isNew {
 					return true
 				}
-				lit, ok := ast.Unparen(call.Args[0]).(*ast.FuncLit)
-				if !ok || len(lit.Type.Params.List) != 1 || len(lit.Type.Params.List[0].Names) != 1 {
+				lit := resolveLit(info, fd, call.Args[0]) // the literal itself, or a local bound once to it (cloneTuple := func…)
+				if lit == nil || len(lit.Type.Params.List) != 1 || len(lit.Type.Params.List[0].Names) != 1 {
 					return true
 				}
 				if !hasInst {
@@ -202,6 +202,17 @@ func Sanitize(c *core.Ctx, rule string, p *packages.Package) {
 							if isBuiltinCall(info, x, "len") || isBuiltinCall(info, x, "cap") {
 								nUses++
 								return
+							}
+							// s.IsEmpty() / s.IsDefined(): a parameterless test of the input yields a bool, which shares nothing
+							if len(x.Args) == 0 {
+								if se, ok := ast.Unparen(x.Fun).(*ast.SelectorExpr); ok {
+									if tv, ok := info.Types[x]; ok && types.Identical(tv.Type, types.Typ[types.Bool]) {
+										if r, _ := accessorPath(info, se.X, roots); r != nil {
+											nUses++
+											return
+										}
+									}
+								}
 							}
 							// X.Clone(arg) / cloneElem(arg)
 							if isCloner(x.Fun) && len(x.Args) == 1 {
